@@ -20,6 +20,9 @@ CONDS = [
     Cond('odd_attrs_unchanged_ok', 'attribute values that are lists with non-string items, bytes, None, numbers, nested lists: '
          'the same objects with the same contents after select / match / filter / closest',
          '7 odd attributes x 14 selectors x 4 entry-point groups', timeout={'quick': 60, 'thorough': 120}),
+    Cond('loose_unchanged_ok', 'parentless elements (extracted, never inserted; HTML and XML) are left parentless and unchanged by '
+         'every entry point, and answer afterwards as a pristine copy does', '18 selectors (positional, :root, :has, state) x 5 entry-point '
+         'groups x 3 elements', timeout={'quick': 60, 'thorough': 120}),
     Cond('twins_ok', 'a document with distinct nodes of identical markup (twin forms, twin lists under different sections): '
          'one select() agrees with match() per element, filter(iterable) and select() from sub-trees',
          '13 selectors x 3 parsers', timeout={'quick': 60, 'thorough': 120}),
